@@ -56,6 +56,14 @@ pub const EDGE_FENS: &[&str] = &[
     "8/8/8/8/8/8/6k1/4K2R b K - 0 1",
     "4k3/8/8/8/8/R7/8/4K2R w K - 0 1",
     "r3k3/8/7r/8/8/8/8/4K3 b q - 0 1",
+    // a rook or queen (not the king) can play e1g1/e1c1/e1a1/e1h1 or e8g8/e8c8/e8a8/e8h8 while
+    // castling rights are still around: coordinate strings that look like castling
+    "4r1k1/5ppp/8/8/8/8/4PPPP/R3K2R b KQ - 0 1",
+    "4q1k1/5ppp/8/8/8/8/4PPPP/R3K2R b KQ - 0 1",
+    "2k1r3/ppp5/8/8/8/8/PPP1P3/R3K2R b KQ - 0 1",
+    "r3k2r/4pppp/8/8/8/8/5PPP/4R1K1 w kq - 0 1",
+    "r3k2r/ppp1p3/8/8/8/8/PPP5/2K1R3 w kq - 0 1",
+    "r3k2r/4pppp/8/8/8/8/5PPP/4Q1K1 w kq - 0 1",
     // rooks captured on their corners
     "r3k2r/8/8/8/8/8/1B4B1/R3K2R w KQkq - 0 1",
     "r3k2r/8/1N4N1/8/8/1n4n1/8/R3K2R w KQkq - 0 1",
